@@ -60,10 +60,12 @@ def session_pids(sid):
 def lifecycle_case(args):
     """one end-to-end scenario of harness/memmap_lifecycle.py; returns the list of problems"""
     import time, signal, glob
-    base, k, sc, backend = args
+    base, k, sc, backend = args[:4]; variant = args[4] if len(args) > 4 else ""
     d = os.path.join(base, "life%d" % k); os.makedirs(d)
-    jf = os.path.join(d, "spec.json"); json.dump({"dir": d, "scenario": sc, "backend": backend}, open(jf, "w"))
+    jf = os.path.join(d, "spec.json"); json.dump({"dir": d, "scenario": sc, "backend": backend, "relative_temp": variant == "relative_temp"}, open(jf, "w"))
     env = dict(os.environ, PYTHONPATH=os.environ.get("VERIF_REPO", "/repo"), PYTHONDONTWRITEBYTECODE="1", JOBLIB_TEMP_FOLDER=d)
+    if variant == "relative_temp": env.pop("JOBLIB_TEMP_FOLDER")
+    if variant == "warn_error": env["PYTHONWARNINGS"] = "error"      # inherited by the tracker process, like -W error
     problems = []
     with open(os.path.join(d, "driver.log"), "w") as lf:
         p = subprocess.Popen(["python3-vt", LIFE, jf], env=env, stdout=lf, stderr=lf, stdin=subprocess.DEVNULL, start_new_session=True)
@@ -75,7 +77,7 @@ def lifecycle_case(args):
             started = glob.glob(os.path.join(d, "task_started_*"))
             if len(started) < 2: problems.append({"kind": "harness", "what": "tasks did not start"})
             else:
-                seen_folder = [f for f in os.listdir(d) if f.startswith("joblib_memmapping_folder")]
+                seen_folder = [f for f in os.listdir(d) if f.startswith("joblib_memmapping_folder")] + glob.glob(os.path.join(d, "cwd2", "reltmp", "joblib_memmapping_folder*"))
                 if not seen_folder: problems.append({"kind": "harness", "what": "no memmapping folder while tasks run"})
                 victim = p.pid if sc == "main_killed" else int(started[0].rsplit("_", 1)[1])
                 os.kill(victim, signal.SIGKILL)
@@ -104,9 +106,9 @@ def lifecycle_case(args):
                 try: os.kill(x, signal.SIGKILL)
                 except OSError: pass
         time.sleep(0.2)
-        rest = sorted(f for f in os.listdir(d) if f.startswith("joblib_memmapping_folder"))
+        rest = sorted([f for f in os.listdir(d) if f.startswith("joblib_memmapping_folder")] + glob.glob(os.path.join(d, "cwd2", "reltmp", "joblib_memmapping_folder*")))
         if rest:
-            problems.append({"kind": "temporary_folder_left_behind", "folders": rest, "content": [os.listdir(os.path.join(d, f))[:5] for f in rest]})
+            problems.append({"kind": "temporary_folder_left_behind", "folders": rest, "content": [os.listdir(f if os.path.isabs(f) else os.path.join(d, f))[:5] for f in rest]})
         recs = [json.loads(l) for l in open(os.path.join(d, "task_log"))] if os.path.exists(os.path.join(d, "task_log")) else []
         for r in recs:
             if not r["memmap"]: problems.append({"kind": "harness", "what": "argument was not memory-mapped"}); break
@@ -119,7 +121,7 @@ def lifecycle_case(args):
             if not o.get("folders_between_calls"): problems.append({"kind": "harness", "what": "no folder between two calls of a with block"})
     finally:
         shutil.rmtree(d, ignore_errors=True)
-    return sc, backend, len(recs) if 'recs' in dir() else 0, problems
+    return sc + ("/" + variant if variant else ""), backend, len(recs) if 'recs' in dir() else 0, problems
 
 
 def body(c):
@@ -183,6 +185,9 @@ def body(c):
     lcases = [(base, k, sc, be) for k, (sc, be) in enumerate((sc, be) for be in (("loky", "multiprocessing") if not c.quick else ("loky",))
               for sc in ("plain", "managed_two_calls", "task_fails", "main_killed", "worker_killed", "generator_abandoned", "generator_alive_at_exit")
               if not (be == "multiprocessing" and sc in ("worker_killed", "generator_abandoned", "generator_alive_at_exit")))]
+    nl = len(lcases)
+    lcases += [(base, nl + k, sc, "loky", var) for k, (sc, var) in enumerate([("main_killed", "relative_temp"), ("generator_alive_at_exit", "relative_temp"),
+                                                                               ("main_killed", "warn_error"), ("generator_alive_at_exit", "warn_error")])]
     with ThreadPoolExecutor(max_workers=4) as ex:
         lres = list(ex.map(lifecycle_case, lcases))
     for sc, be, ntasks, pbs in lres:
